@@ -1,7 +1,10 @@
-(* C16 -- Boudot range proof.  Proved: what an accepted proof pins -- E' = E^(2^T), and (F8, repaired by 291caf1) the two
+(* C16 -- Boudot range proof.  Proved: COMPLETENESS of all ten algorithms (boudot_complete: every proof the honest prover
+   returns verifies -- for every modulus n > 0, every pair of invertible bases, every interval, every value, every sequence of
+   draws incl. negative randomness; Cm n g gi h hi x r = g^x h^r mod n with negative exponents through the inverse) and what an
+   accepted proof pins -- E' = E^(2^T), and (F8, repaired by 291caf1) the two
    square proofs are about E_a_1 / E_b_1 themselves, so sub-proofs cannot be transplanted onto a freely chosen E_?_1.
-   Completeness for every interval and rejection of edited proofs: correspondence + sweep. *)
-From ZK Require Import Cl ClArith ClSig ClMore ClConsts ClMask.
+   Rejection of edited proofs / other bounds, bases, modulus: correspondence + sweep. *)
+From ZK Require Import Cl ClArith ClSig ClMore ClConsts ClMask ClGroup ClBoudot.
 
 Theorem C16_boudot_accepts :
   forall BP p g h n rmin rmax,
@@ -34,3 +37,53 @@ Proof. exact li_bounds_tied. Qed.
 Check (C16_li_bounds_tied :
   li_bounds_agree = true).
 Print Assumptions C16_li_bounds_tied.
+
+(* completeness: every proof returned by prove verifies (the prover returns at all exactly when the value is in the interval,
+   up to the tolerance arithmetic: it panics on a negative square root otherwise) *)
+Theorem C16_boudot_complete :
+  forall n : Z, (0 < n)%Z -> forall g gi h hi : Z, invert g n = Some gi -> invert h n = Some hi ->
+  forall (BP : bparams) (value : Z) (c : commitment) (rmin rmax : Z) (ds : list draw) (p : boudot) (ds' : list draw),
+  (0 <= b_t BP)%Z -> c_value c = Cm n g gi h hi value (c_rand c) ->
+  boudot_prove BP value c g h n rmin rmax ds = Ok (p, ds') ->
+  boudot_verify BP p g h n rmin rmax = Ok true.
+Proof. exact boudot_complete. Qed.
+Check (C16_boudot_complete :
+  forall n : Z, (0 < n)%Z -> forall g gi h hi : Z, invert g n = Some gi -> invert h n = Some hi ->
+  forall (BP : bparams) (value : Z) (c : commitment) (rmin rmax : Z) (ds : list draw) (p : boudot) (ds' : list draw),
+  (0 <= b_t BP)%Z -> c_value c = Cm n g gi h hi value (c_rand c) ->
+  boudot_prove BP value c g h n rmin rmax ds = Ok (p, ds') ->
+  boudot_verify BP p g h n rmin rmax = Ok true).
+Print Assumptions C16_boudot_complete.
+
+Theorem C16_tolerance_complete :
+  forall n : Z, (0 < n)%Z -> forall g gi h hi : Z, invert g n = Some gi -> invert h n = Some hi ->
+  forall (BP : bparams) (x r a b T : Z) (ds : list draw) (p : proof_wt) (ds' : list draw),
+  (0 <= b_t BP)%Z ->
+  proof_of_tolerance BP x r g h n a b T ds = Ok (p, ds') ->
+  verify_of_tolerance BP p g h (Cm n g gi h hi x r) n a b T = Ok true.
+Proof. exact tolerance_complete. Qed.
+Check (C16_tolerance_complete :
+  forall n : Z, (0 < n)%Z -> forall g gi h hi : Z, invert g n = Some gi -> invert h n = Some hi ->
+  forall (BP : bparams) (x r a b T : Z) (ds : list draw) (p : proof_wt) (ds' : list draw),
+  (0 <= b_t BP)%Z ->
+  proof_of_tolerance BP x r g h n a b T ds = Ok (p, ds') ->
+  verify_of_tolerance BP p g h (Cm n g gi h hi x r) n a b T = Ok true).
+Print Assumptions C16_tolerance_complete.
+
+(* the model's modular inverse (extended Euclid with fuel 2 log2 m + 4) finds an inverse whenever one exists *)
+Theorem C16_invert_complete :
+  forall a m y : Z, (0 < m)%Z -> ((a * y) mod m = 1 mod m)%Z -> exists x : Z, invert a m = Some x.
+Proof. exact invert_complete. Qed.
+Check (C16_invert_complete :
+  forall a m y : Z, (0 < m)%Z -> ((a * y) mod m = 1 mod m)%Z -> exists x : Z, invert a m = Some x).
+Print Assumptions C16_invert_complete.
+
+(* exponent arithmetic with negative exponents: gp is a homomorphism *)
+Theorem C16_gp_add :
+  forall n : Z, (0 < n)%Z -> forall h hi : Z, Zdiv.eqm n (h * hi) 1 ->
+  forall e1 e2 : Z, Zdiv.eqm n (gp n h hi (e1 + e2)) (gp n h hi e1 * gp n h hi e2).
+Proof. exact gp_add. Qed.
+Check (C16_gp_add :
+  forall n : Z, (0 < n)%Z -> forall h hi : Z, Zdiv.eqm n (h * hi) 1 ->
+  forall e1 e2 : Z, Zdiv.eqm n (gp n h hi (e1 + e2)) (gp n h hi e1 * gp n h hi e2)).
+Print Assumptions C16_gp_add.
